@@ -53,6 +53,16 @@ Proof. destruct u as [|a [|b [|c u]]]; intros H; [congruence| | |]; cbn; discrim
 Lemma enc_nonempty f d : enc f d <> [].
 Proof. unfold enc, encode_line, encode_text. destruct f; intros H; apply app_eq_nil in H; destruct H; discriminate. Qed.
 
+(* Rotate installs exactly the given signer and touches nothing else; Rotate(nil) is refused and changes nothing *)
+Theorem rotate_installs c sg :
+  let c' := fst (rotate c (Some sg)) in
+  snd (rotate c (Some sg)) = true /\ c_signer c' = Some sg /\ c_sign_types c' = c_sign_types c /\ c_source c' = c_source c /\
+  c_schema c' = c_schema c /\ c_format c' = c_format c /\ c_pred c' = c_pred c /\ valid c' = valid c /\
+  (forall ty, listed c' ty = listed c ty).
+Proof. cbn. repeat split; reflexivity. Qed.
+Theorem rotate_nil_refused c : rotate c None = (c, false).
+Proof. reflexivity. Qed.
+
 Section Proofs.
   Variable P : Type.
   Variable p_id : P -> option bytes.
@@ -202,6 +212,23 @@ Section Proofs.
     split; [apply encode_nonempty; apply enc_nonempty|]. split; [apply serialized_decodes; exact Hdw|].
     split; [intros Hh; apply signed_doc_members; try reflexivity; [apply encode_nonempty; apply enc_nonempty|exact Hh]|].
     split; apply ce_document_parses; [exact Hdw|]. exact Hdw.
+  Qed.
+
+  (* after Rotate(sg) — whatever signer, or none, the node had before — a listed type is signed by sg: apply
+     signed_when_required to the rotated configuration *)
+  Theorem rotated_signer_in_force cf sg (ev : event) fresh r oc calls :
+    process (Some (fst (rotate cf (Some sg)))) (Some ev) fresh = (r, oc, calls) -> oc <> OErr ->
+    listed cf (ev_type ev) = true ->
+    (forall v, p_data (ev_payload ev) = DVal v -> wf v) ->
+    exists d h ser,
+      d_ser d = [] /\ d_hmac d = [] /\ sg (enc (c_format cf) d) = SigOk h /\ calls = [enc (c_format cf) d] /\
+      r = Some (formatted_as (fmt_key (c_format cf)) (enc (c_format cf) (with_sig d ser h)) ev) /\
+      ser <> [] /\ Base64.decode ser = Some (enc (c_format cf) d).
+  Proof.
+    intros H Hoc Hl Hwf.
+    destruct (signed_when_required (fst (rotate cf (Some sg))) ev fresh r oc calls sg H Hoc eq_refl Hl Hwf)
+      as [d [h [ser [H1 [H2 [H3 [H4 [H5 [H6 [H7 _]]]]]]]]]].
+    exists d, h, ser. cbn [rotate fst c_format] in *. repeat split; assumption.
   Qed.
 
   (* event types that are not listed (or no signer): the signer is never called and the stored document carries neither
